@@ -150,7 +150,12 @@ func VerifHarness_C14_int_write() {
 func VerifHarness_C14_timestamp() {
 	base := time.Date(2024, time.March, 9, 7, 5, 3, 123456789, time.UTC)
 	p := TimestampPrecision(verifConc(ndInt("precision", 0, 3)))
-	w := FIXUTCTimestamp{Time: base, Precision: p}.Write()
+	val := base
+	if ndBool("value-held-in-another-zone") {
+		val = base.In(time.FixedZone("P530", 5*3600+1800)) // the same instant; the text written is UTC all the same
+	}
+	w := FIXUTCTimestamp{Time: val, Precision: p}.Write()
+	verifAssert(verifEqBytes(w[:17], []byte("20240309-07:05:03")), "timestamp-written-in-utc")
 	wantLen := map[TimestampPrecision]int{Seconds: 17, Millis: 21, Micros: 24, Nanos: 27}[p]
 	verifAssert(len(w) == wantLen, "timestamp-text-length-per-precision")
 	// the receiving value may have been used before, for a timestamp of any precision
@@ -162,6 +167,27 @@ func VerifHarness_C14_timestamp() {
 	trunc := map[TimestampPrecision]time.Duration{Seconds: time.Second, Millis: time.Millisecond, Micros: time.Microsecond, Nanos: time.Nanosecond}[p]
 	verifAssert(r.Time.Equal(base.Truncate(trunc)), "timestamp-value-truncated-to-precision")
 	verifAssert(verifEqBytes(r.Write(), w), "timestamp-write-read-text")
+	// near misses of the right length: a field one digit short with the fraction one digit long, or a wrong separator
+	if ndBool("near-miss") {
+		verifCase("near-miss")
+		nm := append([]byte{}, w...)
+		switch k := verifConc(ndInt("near-miss-kind", 0, 7)); {
+		case k <= 4 && p != Seconds:
+			at := []int{4, 6, 9, 12, 15}[k] // first digit of month, day, hour, minute, second
+			nm = append(append(append([]byte{}, w[:at]...), w[at+1:]...), '0')
+		case k <= 4:
+			nm[[]int{4, 6, 9, 12, 15}[k]] = ' '
+		case k == 5:
+			nm[8] = ' '
+		case k == 6:
+			nm[11] = '.'
+		default:
+			nm[14] = '-'
+		}
+		var x FIXUTCTimestamp
+		verifAssert(x.Read(nm) != nil, "timestamp-near-miss-rejected")
+		return
+	}
 	// a text of any other length is rejected whatever it contains
 	n := verifConc(ndInt("otherlen", 15, 28))
 	if n != 17 && n != 21 && n != 24 && n != 27 {
